@@ -2,20 +2,26 @@
 C16 — automated transactions add exactly the declared postings to each match.
 
 The model (`Model/AutoXact.lean`) mirrors `auto_xact_t::extend_xact`
-(xact.cc 694-888) statement by statement, including the mutable matching state
-of a rule (`try_quick_match`, `memoized_results`), and `journal_t::add_xact` /
-`extend_xact` (journal.cc 365-380, 445-449).  The theorems below hold for every
-matcher (regex engine), every precision environment, every rule, every
-transaction / journal — no bounds.  `MemoOK` (every memoised answer is what
-`post_pred` returns for that account name) is the invariant of a rule's
-matching state; it holds initially, is preserved by every step
-(`C16.quick_eq_general`), hence for every state `load` reaches
-(`C16.load_memo_ok`).
+(xact.cc 694-888) statement by statement — the mutable matching state of a rule
+(`try_quick_match`, `memoized_results`), deferred notes, `check`/`assert` lines,
+amount expressions, rule-line costs, posting state, the final `verify()` — and
+`journal_t::add_xact` / `extend_xact` (journal.cc 365-380, 445-449), on top of a
+`finalize` that gives postings with an `@`/`@@` cost their lot.  The theorems hold
+for every matcher (regex engine), every precision environment, every rule, every
+transaction / journal — no bounds.
 
-The tie to the source is `C16.fns_pinned` (the text of extend_xact, post_pred,
-verify, add_balancing_post, journal_t::extend_xact/add_xact re-extracted from
-the working tree is the text this model was written against) and the
-differential check of `load` against the rebuilt binary (tools/props/c16.py).
+* `MemoOK` (every memoised answer is what `post_pred` returns for that account
+  name) is the invariant of a rule's matching state; it holds initially, is
+  preserved by every step, hence for every state `load` reaches.
+* `extendSpec` is the stateless specification (general evaluator, no memo);
+  `C16.code_refines_spec` says the code computes it.  For predicates without
+  `any()`/`all()` the specification has the closed list form of
+  `C16.extend_appends_exactly`; `any()`/`all()` read the LIVE posting list
+  (post.cc 377-423), so with them only the shape theorem `C16.extend_shape`
+  and the sequential specification hold.
+
+The tie to the source is `C16.fns_pinned` and the differential check of `load`
+against the rebuilt binary (tools/props/c16.py).
 -/
 import LedgerModel.Lemmas.AutoXact
 import LedgerModel.Gen.AutoXact
@@ -27,121 +33,240 @@ open AutoXact
 /-- The automated-transaction code found in the working tree is the code the model mirrors. -/
 theorem C16.fns_pinned : Gen.autoXactFns = Pinned.autoXactFns := rfl
 
-/-- `extend_xact` appends exactly the declared postings: the result is the
-    original postings followed, for each ORIGINAL posting that is not flagged
-    generated and satisfies the predicate (as the GENERAL evaluator sees it), in
-    order, by one posting per rule line in order (`additions`, whose elements are
-    `genPost env matched line`; their fields are `C16.generated_posting_fields`).
-    Nothing else of the transaction changes. -/
-theorem C16.extend_appends_exactly (m : Matcher) (env : PrecEnv) (r : Rule) (st : RState) (x : FXact)
+/-- The code (memo lookup, quick path, fallback) computes the stateless
+    specification, for every predicate incl. `any()`/`all()`, and keeps the state
+    invariant. -/
+theorem C16.code_refines_spec (m : Matcher) (env : PrecEnv) (r : Rule) (st : RState) (x : FXact)
     (h : MemoOK m r.pred st) :
-    (extend m env r st x).2.posts =
-        x.posts ++ (x.posts.filter (fun p => !p.generated && r.pred.eval m x.payee p)).flatMap
-                      (fun matched => r.lines.map (fun line => genPost env matched line)) ∧
-    (extend m env r st x).2.payee = x.payee ∧ (extend m env r st x).2.line = x.line := by
-  have := (extend_spec m env r st x h).1
-  rw [this]
-  exact ⟨rfl, rfl, rfl⟩
+    (extend m env r st x).2 = extendSpec m env r x ∧ MemoOK m r.pred (extend m env r st x).1 :=
+  extend_refines m env r st x h
 
-/-- The fields of a generated posting: a rule amount WITHOUT commodity is
-    multiplied EXACTLY by the matched posting's amount (quantity = product of the
-    exact rationals; the commodity is the matched one's; the precision counter is
-    the sum, clamped to the commodity's display precision + 6 — display only); a
-    commoditized rule amount is used as written; the account is the rule line's
-    with `$account` replaced by the matched account; the kind and position are the
-    rule line's; the posting is flagged generated. -/
-theorem C16.generated_posting_fields (env : PrecEnv) (matched : FPost) (l : RuleLine) :
-    (l.amount.hasComm = true → (genPost env matched l).amount = l.amount) ∧
-    (l.amount.hasComm = false →
-        (genPost env matched l).amount.q = matched.amount.q * l.amount.q ∧
-        (genPost env matched l).amount.comm = matched.amount.comm) ∧
-    (genPost env matched l).account = substAccount l.account matched.account ∧
-    (genPost env matched l).kind = l.kind ∧
-    (genPost env matched l).line = l.line ∧
-    (genPost env matched l).generated = true := by
-  refine ⟨?_, ?_, rfl, rfl, rfl, rfl⟩
-  · intro h; simp [genPost, genAmount, h]
-  · intro h
-    have hc : l.amount.comm = "" := by simpa [Amount.hasComm] using h
-    simp only [genPost, genAmount, h, Bool.false_eq_true, if_false]
-    refine ⟨mul_q env _ _, ?_⟩
-    rw [mul_comm_field]
-    split
-    · rfl
-    · rename_i hm
-      have : matched.amount.comm = "" := by simpa [Amount.hasComm] using hm
-      rw [hc, this]
+/-- `extend_xact` appends exactly the declared postings (predicates without
+    `any()`/`all()`): if it succeeds, the result is the original postings in place
+    — a matched one carries the rule-level notes, nothing else changes (`mark`) —
+    followed, for each ORIGINAL posting that is not flagged generated and satisfies
+    the predicate (general evaluator), in order, by the postings of the rule's
+    lines in order (`gensOf`, whose elements are characterised by
+    `C16.generated_posting_fields`).  Payee, position and state of the transaction
+    are unchanged; the warnings are the failed `check`s of the matched postings. -/
+theorem C16.extend_appends_exactly (m : Matcher) (env : PrecEnv) (r : Rule) (st : RState) (x : FXact) (e : Ext)
+    (h : MemoOK m r.pred st) (haf : r.pred.anyFree = true) (hok : (extend m env r st x).2 = .ok e) :
+    e.xact.posts = x.posts.map (mark m r x.payee) ++
+        (x.posts.filter (fun p => !p.generated && r.pred.eval m [] x.payee p)).flatMap (gensOf env r x) ∧
+    e.added = (x.posts.filter (fun p => !p.generated && r.pred.eval m [] x.payee p)).flatMap (gensOf env r x) ∧
+    e.xact.payee = x.payee ∧ e.xact.line = x.line ∧ e.xact.state = x.state ∧
+    e.warns = ((x.posts.filter (r.matches m x.payee)).map (warnsOf env r)).sum := by
+  rw [(extend_refines m env r st x h).1] at hok
+  obtain ⟨lo, hlo, hx, ha, hw, _⟩ := finish_ok hok
+  obtain ⟨h1, h2, h3, _⟩ := specGo_closed m env r x haf lo hlo
+  rw [hx, ha, hw, h1, h2, h3]
+  exact ⟨rfl, rfl, rfl, rfl, rfl, rfl⟩
 
-/-- Original postings are an unchanged prefix of the extended transaction
-    (matching or not), position by position. -/
-theorem C16.nonmatching_untouched (m : Matcher) (env : PrecEnv) (r : Rule) (st : RState) (x : FXact) :
-    x.posts <+: (extend m env r st x).2.posts ∧
-    ∀ (i : Nat) (hi : i < x.posts.length), (extend m env r st x).2.posts[i]? = some x.posts[i] := by
-  refine ⟨⟨_, rfl⟩, ?_⟩
-  intro i hi
-  simp [extend, List.getElem?_append_left hi]
+/-- For EVERY predicate (also with `any()`/`all()`): a successful extension keeps
+    the original postings in place, position by position, equal up to their note,
+    and everything it appends is flagged generated. -/
+theorem C16.extend_shape (m : Matcher) (env : PrecEnv) (r : Rule) (st : RState) (x : FXact) (e : Ext)
+    (h : MemoOK m r.pred st) (hok : (extend m env r st x).2 = .ok e) :
+    ∃ origs, e.xact.posts = origs ++ e.added ∧ Pointwise SameButNote origs x.posts ∧
+      ∀ g ∈ e.added, g.generated = true := by
+  rw [(extend_refines m env r st x h).1] at hok
+  obtain ⟨lo, hlo, hx, ha, _, _⟩ := finish_ok hok
+  obtain ⟨⟨rest', h1, h2⟩, ⟨more, h3, h4⟩⟩ := loop_shape (decSpec m r x) env r x x.posts () [] [] 0 lo hlo
+  refine ⟨lo.origs, by rw [hx, ha], by simpa [h1] using h2, ?_⟩
+  intro g hg
+  rw [ha, h3] at hg
+  exact h4 g (by simpa using hg)
 
-/-- A posting that does not match contributes nothing: if no original
-    non-generated posting satisfies the predicate the transaction is returned
-    unchanged. -/
-theorem C16.no_match_no_change (m : Matcher) (env : PrecEnv) (r : Rule) (st : RState) (x : FXact)
-    (h : MemoOK m r.pred st)
-    (hn : ∀ p ∈ x.posts, p.generated = true ∨ r.pred.eval m x.payee p = false) :
-    (extend m env r st x).2 = x := by
-  rw [(extend_spec m env r st x h).1]
-  have : x.posts.filter (r.matches m x.payee) = [] := by
-    apply List.filter_eq_nil_iff.mpr
-    intro p hp
-    rcases hn p hp with h1 | h1 <;> simp [Rule.matches, h1]
-  simp [extendSpec, additions, this]
+/-- The fields of a generated posting (rule line `l`, index `i`, matched posting
+    `ip`, transaction `x`):
+    * amount — a literal WITHOUT commodity is multiplied EXACTLY by the matched amount: quantity =
+      product of the exact rationals, commodity = the matched one's INCLUDING its lot annotation; a
+      commoditized literal is used as written; an amount expression is evaluated in the matched
+      posting's scope: an integer or commodity-less value multiplies the matched amount, a
+      commoditized value is used as is;
+    * the rule line's account with `$account` / `%(account)` / `%(payee)` substituted, its kind,
+      position and TOTAL cost (fixed when the rule was read, not scaled);
+    * state: cleared when the transaction is cleared, else the rule line's own;
+    * note: the line's inline note, then the rule-level notes and the notes following that line;
+    * flagged generated. -/
+theorem C16.generated_posting_fields (env : PrecEnv) (r : Rule) (x : FXact) (ip : FPost) (i : Nat) (l : RuleLine)
+    (g : FPost) (h : genPost env r x ip i l = .ok g) :
+    (∀ a, l.amt = .lit a → a.hasComm = true → g.amount = a) ∧
+    (∀ a, l.amt = .lit a → a.hasComm = false →
+        g.amount.q = ip.amount.q * a.q ∧ g.amount.comm = ip.amount.comm) ∧
+    (∀ e a, l.amt = .expr e → evalPostExpr env ip e = .ok (.v (.amt a)) →
+        (a.hasComm = true → g.amount = a) ∧
+        (a.hasComm = false → g.amount.q = ip.amount.q * a.q ∧ g.amount.comm = ip.amount.comm)) ∧
+    (∀ e n, l.amt = .expr e → evalPostExpr env ip e = .ok (.v (.int n)) →
+        g.amount.q = ip.amount.q * (n : Rat)) ∧
+    g.account = substAccount l.account ip.account x.payee ∧ g.kind = l.kind ∧ g.line = l.line ∧
+    g.cost = l.cost ∧ g.state = (if x.state = 1 then 1 else l.state) ∧ g.generated = true ∧
+    g.note = (notesFor r i).foldl (fun (n : Option String) t => some (match n with
+                                                                     | some s => s ++ "\n" ++ t
+                                                                     | none => t)) l.note := by
+  unfold genPost at h
+  cases hga : genAmount env l.amt ip with
+  | error e => rw [hga] at h; cases h
+  | ok a0 =>
+    rw [hga] at h
+    simp only at h
+    cases h
+    have hs := foldl_appendNote_same (notesFor r i)
+      { account := substAccount l.account ip.account x.payee, kind := l.kind,
+        state := if x.state = 1 then 1 else l.state, amount := a0, cost := l.cost, note := l.note,
+        line := l.line, generated := true, calculated := false }
+    have hn := foldl_appendNote_note (notesFor r i)
+      { account := substAccount l.account ip.account x.payee, kind := l.kind,
+        state := if x.state = 1 then 1 else l.state, amount := a0, cost := l.cost, note := l.note,
+        line := l.line, generated := true, calculated := false }
+    obtain ⟨s1, s2, s3, s4, s5, s6, s7, _⟩ := hs
+    have hmulc : ∀ b : Amount, b.hasComm = false →
+        (Amount.mul env ip.amount b).comm = ip.amount.comm := by
+      intro b hb
+      rw [mul_comm_field]
+      split
+      · rfl
+      · rename_i hm
+        have h1 : ip.amount.comm = "" := by simpa [Amount.hasComm] using hm
+        have h2 : b.comm = "" := by simpa [Amount.hasComm] using hb
+        rw [h1, h2]
+    refine ⟨?_, ?_, ?_, ?_, s1, s2, s6, s5, s3, s7, hn⟩
+    · intro a hl ha
+      rw [s4]; simp only [genAmount, hl, ha, if_true] at hga; cases hga; rfl
+    · intro a hl ha
+      rw [s4]; simp only [genAmount, hl, ha, Bool.false_eq_true, if_false] at hga; cases hga
+      exact ⟨mul_q env _ _, hmulc a ha⟩
+    · intro e a hl hev
+      rw [s4]; simp only [genAmount, hl, hev] at hga
+      constructor
+      · intro ha; simp only [ha, if_true] at hga; cases hga; rfl
+      · intro ha; simp only [ha, Bool.false_eq_true, if_false] at hga; cases hga
+        exact ⟨mul_q env _ _, hmulc a ha⟩
+    · intro e n hl hev
+      rw [s4]; simp only [genAmount, hl, hev] at hga; cases hga
+      rw [mul_q]; rfl
+
+/-- The amount expression `(amount * k)` — as the expression parser reads it —
+    on a commoditized matched amount is the multiplier `k`: both give
+    `matched × k` (same quantity, precision, commodity).  (On a commodity-LESS
+    matched amount the expression's value has no commodity either and is, as
+    coded, multiplied by the matched amount once more.) -/
+theorem C16.expr_times_eq_multiplier (env : PrecEnv) (ip : FPost) (k : Amount)
+    (hip : ip.amount.hasComm = true) (hk : k.hasComm = false) :
+    genAmount env (.expr (.bin .mul (.ident "amount" .nil) (.val (.amt k)))) ip = genAmount env (.lit k) ip ∧
+    genAmount env (.lit k) ip = .ok (Amount.mul env ip.amount k) := by
+  have hev : evalPostExpr env ip (.bin .mul (.ident "amount" .nil) (.val (.amt k))) =
+      .ok (.v (.amt (Amount.mul env ip.amount k))) := rfl
+  have hc : (Amount.mul env ip.amount k).hasComm = true := by
+    have := mul_comm_field env ip.amount k
+    simp only [hip, if_true] at this
+    simp only [Amount.hasComm] at hip ⊢
+    rw [this]; exact hip
+  simp only [genAmount, hev, hc, hk, if_true, Bool.false_eq_true, if_false, and_self]
+
+/-- The matched posting's COST, note, state and flags play no role in what is
+    generated: only its account and its amount (with its lot) are read.  In
+    particular a posting bought `@`/`@@` yields `multiplier × amount` in the lot's
+    commodity, not a share of the cost. -/
+theorem C16.matched_cost_plays_no_role (env : PrecEnv) (r : Rule) (x : FXact) (p q : FPost)
+    (ha : p.amount = q.amount) (hc : p.account = q.account) (i : Nat) (ls : List RuleLine) :
+    genLines env r x p i ls = genLines env r x q i ls :=
+  genLines_congr env r x p q ha hc ls i
+
+/-- what `finalize` does to a posting with a cost (xact.cc 287-345, pool.cc
+    240-320): the quantity is unchanged, the commodity becomes the lot
+    BASE {|total cost / quantity|} [transaction date], the cost is kept. -/
+theorem C16.finalize_cost_lot (env : PrecEnv) (date : Int) (p p' : PPost) (a c : Amount)
+    (ha : p.amount = some a) (hc : p.cost = some c) (h : annotateCost env date p = .ok p') :
+    p'.amount = some { a with comm := lotComm a.comm (Amount.mk (ratAbs (c.q / a.q)) c.prec true c.comm) date } ∧
+    p'.cost = some c ∧ a.comm ≠ c.comm := by
+  unfold annotateCost at h
+  simp only [ha, hc] at h
+  split at h
+  · cases h
+  · split at h
+    · cases h
+    · rename_i hne
+      split at h
+      · cases h
+      · cases h
+        exact ⟨rfl, rfl, hne⟩
+
+/-- Original postings stay in place (predicates without `any()`/`all()`): the
+    k-th posting of the result is the k-th original, unchanged when it does not
+    match, and equal up to its note — which gains exactly the rule-level notes —
+    when it matches. -/
+theorem C16.nonmatching_untouched (m : Matcher) (env : PrecEnv) (r : Rule) (st : RState) (x : FXact) (e : Ext)
+    (h : MemoOK m r.pred st) (haf : r.pred.anyFree = true) (hok : (extend m env r st x).2 = .ok e) :
+    ∀ (k : Nat) (p : FPost), x.posts[k]? = some p →
+      (r.matches m x.payee p = false → e.xact.posts[k]? = some p) ∧
+      (r.matches m x.payee p = true →
+        ∃ p', e.xact.posts[k]? = some p' ∧ SameButNote p' p ∧
+          p'.note = (ruleLevelNotes r).foldl (fun (n : Option String) t => some (match n with
+                                                                                | some s => s ++ "\n" ++ t
+                                                                                | none => t)) p.note) := by
+  intro k p hk
+  have hp := (C16.extend_appends_exactly m env r st x e h haf hok).1
+  have hlt : k < x.posts.length := by
+    rcases Nat.lt_or_ge k x.posts.length with h1 | h1
+    · exact h1
+    · rw [List.getElem?_eq_none h1] at hk; cases hk
+  have hget : e.xact.posts[k]? = some (mark m r x.payee p) := by
+    rw [hp, List.getElem?_append_left (by simpa using hlt), List.getElem?_map, hk]; rfl
+  constructor
+  · intro hm; rw [hget]; simp [mark, hm]
+  · intro hm
+    refine ⟨annotate r p, by rw [hget]; simp [mark, hm], annotate_same r p, ?_⟩
+    exact foldl_appendNote_note _ p
 
 /-- Generated postings are never matched again.
-    (1) every posting a rule adds is flagged generated;
+    (1) everything a rule appends is flagged generated (any predicate);
     (2) postings flagged generated yield no additions, whatever the predicate says about them —
         so a rule does not fire on its own output in the same pass, nor in a second pass;
     (3) what the code does with several rules: a later rule `r2` runs over the list that already
-        contains `r1`'s additions, skips them because of the flag, and so derives its postings from
-        the ORIGINAL postings only — also when `r2 = r1`. -/
-theorem C16.generated_not_rematched (m : Matcher) (env : PrecEnv) (r1 r2 : Rule) (st1 st2 : RState) (x : FXact)
-    (h1 : MemoOK m r1.pred st1) (h2 : MemoOK m r2.pred st2) :
-    (∀ g ∈ additions m env r1 x.payee x.posts, g.generated = true) ∧
-    (∀ gens : List FPost, (∀ g ∈ gens, g.generated = true) → additions m env r2 x.payee gens = []) ∧
-    (extend m env r2 st2 (extend m env r1 st1 x).2).2.posts =
-      x.posts ++ additions m env r1 x.payee x.posts ++ additions m env r2 x.payee x.posts := by
-  refine ⟨fun g hg => mem_additions_generated m env r1 x.payee x.posts g hg,
-          fun gens hg => additions_generated m env r2 x.payee gens hg, ?_⟩
-  rw [(extend_spec m env r2 st2 _ h2).1, (extend_spec m env r1 st1 x h1).1]
-  simp only [extendSpec]
-  rw [additions_orig_gens m env r2 x.payee x.posts _
-        (fun g hg => mem_additions_generated m env r1 x.payee x.posts g hg)]
-
-/-- Journal level, closed form: when all rules `rs` seen so far apply without
-    error to a finalized transaction `x` whose postings are `orig ++ gens` (`gens`
-    = the postings finalize itself generated), the result is
-    `orig ++ gens ++` the additions of each rule, in rule order, each computed
-    from the ORIGINAL postings `orig` alone: no rule sees another rule's (or its
-    own, or finalize's) generated postings. -/
-theorem C16.generated_not_rematched_journal (m : Matcher) (env : PrecEnv) (rs : List Rule) (x y : FXact)
-    (orig gens : List FPost) (hx : x.posts = orig ++ gens) (hg : ∀ g ∈ gens, g.generated = true)
-    (h : applyRulesSpec m env rs x = .ok y) :
-    y.posts = orig ++ gens ++ rs.flatMap (fun r => additions m env r x.payee orig) ∧
-    y.payee = x.payee ∧ y.line = x.line := by
-  rw [applyRulesSpec_ok m env rs x y h]
-  exact foldl_extendSpec_posts m env rs x gens hg orig hx
+        contains `r1`'s additions, skips them because of the flag, and derives its postings from the
+        ORIGINAL postings only (as `r1` left them: same amounts and accounts, notes grown) — also when
+        `r2 = r1`. -/
+theorem C16.generated_not_rematched (m : Matcher) (env : PrecEnv) (r1 r2 : Rule) (x : FXact) (e1 e2 : Ext)
+    (haf1 : r1.pred.anyFree = true) (haf2 : r2.pred.anyFree = true)
+    (h1 : extendSpec m env r1 x = .ok e1) (h2 : extendSpec m env r2 e1.xact = .ok e2) :
+    (∀ g ∈ e1.added, g.generated = true) ∧
+    (∀ gens : List FPost, (∀ g ∈ gens, g.generated = true) → additions m env r2 e1.xact gens = []) ∧
+    e2.added = additions m env r2 e1.xact (x.posts.map (mark m r1 x.payee)) ∧
+    e2.xact.posts = (x.posts.map (mark m r1 x.payee)).map (mark m r2 x.payee) ++ e1.added ++ e2.added := by
+  obtain ⟨lo1, hlo1, hx1, ha1, _, _⟩ := finish_ok h1
+  obtain ⟨o1, a1, _, _⟩ := specGo_closed m env r1 x haf1 lo1 hlo1
+  obtain ⟨lo2, hlo2, hx2, ha2, _, _⟩ := finish_ok h2
+  obtain ⟨o2, a2, _, _⟩ := specGo_closed m env r2 e1.xact haf2 lo2 hlo2
+  have hgen1 : ∀ g ∈ e1.added, g.generated = true := by
+    intro g hg; rw [ha1, a1] at hg; exact mem_additions_generated m env r1 x x.posts g hg
+  have hpay : e1.xact.payee = x.payee := by rw [hx1]
+  have hposts1 : e1.xact.posts = x.posts.map (mark m r1 x.payee) ++ e1.added := by rw [hx1, ha1, o1]
+  refine ⟨hgen1, fun gens hg => additions_generated m env r2 e1.xact gens hg, ?_, ?_⟩
+  · rw [ha2, a2, hposts1, additions_append, additions_generated m env r2 e1.xact e1.added hgen1, List.append_nil]
+  · have hmapid : e1.added.map (mark m r2 x.payee) = e1.added := by
+      have : ∀ g ∈ e1.added, mark m r2 x.payee g = id g := by
+        intro g hg; simp [mark, Rule.matches, hgen1 g hg]
+      rw [List.map_congr_left this]; simp
+    rw [hx2, ha2, o2, a2, hposts1, hpay]
+    simp only [List.map_append, additions_append, additions_generated m env r2 e1.xact e1.added hgen1,
+      List.append_nil, List.append_assoc, hmapid]
 
 /-- The quick account-only path with its memo equals the general evaluator:
     (1) whenever `post_pred` answers (does not throw) its answer is the general evaluator's, for
-        every posting with that account name and every payee;
+        every posting with that account name, every payee and every posting list;
     (2) `matchPost` (memo lookup, else quick path and memoise, else fall back for good) returns the
         general evaluator's answer under the state invariant, and preserves the invariant;
     (3) the invariant holds for a fresh rule. -/
 theorem C16.quick_eq_general (m : Matcher) (pr : Pred) :
-    (∀ (payee : String) (p : FPost) (b : Bool), pr.quick m p.account = some b → pr.eval m payee p = b) ∧
-    (∀ (payee : String) (st : RState) (p : FPost), MemoOK m pr st →
-        (matchPost m pr payee st p).1 = pr.eval m payee p ∧ MemoOK m pr (matchPost m pr payee st p).2) ∧
+    (∀ (ctx : List FPost) (payee : String) (p : FPost) (b : Bool),
+        pr.quick m p.account = some b → pr.eval m ctx payee p = b) ∧
+    (∀ (ctx : List FPost) (payee : String) (st : RState) (p : FPost), MemoOK m pr st →
+        (matchPost m pr ctx payee st p).1 = pr.eval m ctx payee p ∧
+        MemoOK m pr (matchPost m pr ctx payee st p).2) ∧
     MemoOK m pr RState.init :=
-  ⟨fun payee p b h => quick_sound m payee p pr b h,
-   fun payee st p h => ⟨matchPost_fst m pr payee st p h, matchPost_ok m pr payee st p h⟩,
+  ⟨fun ctx payee p b h => quick_sound m ctx payee p pr b h,
+   fun ctx payee st p h => ⟨matchPost_fst m pr ctx payee st p h, matchPost_ok m pr ctx payee st p h⟩,
    memoOK_init m pr⟩
 
 /-- Every matching state that `load` reaches satisfies the invariant, and the
@@ -153,18 +278,19 @@ theorem C16.load_memo_ok (m : Matcher) (items : List Item) :
 
 /-- `journal_t::add_xact`: a transaction is finalized, then extended by exactly
     the rules that precede it in the file (stateless specification
-    `applyRulesSpec`: each rule's `additions`, then its conditional re-verification),
-    and appended; on an error it is dropped and the error recorded. -/
+    `applyRulesSpec`: each rule's `extendSpec` in turn), and appended with its
+    warning count; on an error it is dropped and the error recorded with the line
+    of the rule that raised it. -/
 theorem C16.load_applies_rules_so_far (m : Matcher) (pre : List Item) (x : Xact) :
     let s := load m pre
     let prec := s.prec.bumpAll (x.posts.filterMap (·.amount))
     let s' := load m (pre ++ [.xact x])
     match finalize prec.get x with
-    | .error e => s'.xacts = s.xacts ∧ s'.errs = s.errs ++ [(x.line, 0, e)]
+    | .error e => s'.xacts = s.xacts ∧ s'.errs = s.errs ++ [(x.line, 0, e)] ∧ s'.warns = s.warns
     | .ok fx =>
-      match applyRulesSpec m prec.get (rulesOf pre) fx with
-      | .ok fx' => s'.xacts = s.xacts ++ [fx'] ∧ s'.errs = s.errs
-      | .error (e, rl) => s'.xacts = s.xacts ∧ s'.errs = s.errs ++ [(x.line, rl, e)] := by
+      match applyRulesSpec m prec.get (rulesOf pre) fx 0 with
+      | .ok (fx', w) => s'.xacts = s.xacts ++ [fx'] ∧ s'.errs = s.errs ∧ s'.warns = s.warns ++ [(x.line, w)]
+      | .error (e, rl) => s'.xacts = s.xacts ∧ s'.errs = s.errs ++ [(x.line, rl, e)] ∧ s'.warns = s.warns := by
   intro s prec s'
   have hs' : s' = step m s (.xact x) := load_snoc m pre (.xact x)
   have hok := load_allOK m pre
@@ -173,76 +299,124 @@ theorem C16.load_applies_rules_so_far (m : Matcher) (pre : List Item) (x : Xact)
   cases hf : finalize (PrecTable.get prec) x with
   | error e => simp
   | ok fx =>
-    have hf' := hf
     simp only []
-    have hsp := applyRules_spec m (PrecTable.get prec) s.rules fx hok.1
+    have hsp := applyRules_spec m (PrecTable.get prec) s.rules fx 0 hok.1
     rw [hok.2] at hsp
     simp only [prec] at hsp
     rw [← hsp.1]
-    cases hr : (applyRules m (PrecTable.get (s.prec.bumpAll (x.posts.filterMap (·.amount)))) s.rules fx).2 with
-    | ok fx' => simp
+    cases hr : (applyRules m (PrecTable.get (s.prec.bumpAll (x.posts.filterMap (·.amount)))) s.rules fx 0).2 with
+    | ok res => obtain ⟨fx', w⟩ := res; simp
     | error e => obtain ⟨e1, e2⟩ := e; simp
 
 /-- Rules only affect later transactions: whatever follows a file prefix `pre`
-    — in particular a rule and any further items — the transactions accepted (and
-    the errors reported) for `pre` stay exactly as `load pre` produced them, as a
-    prefix of the final lists; and a rule placed after everything changes no
-    transaction at all. -/
+    — in particular a rule and any further items — the transactions accepted, the
+    errors and the warnings reported for `pre` stay exactly as `load pre` produced
+    them, as a prefix of the final lists; and a rule placed after everything
+    changes nothing at all. -/
 theorem C16.rules_only_later (m : Matcher) (pre post : List Item) (r : Rule) :
     (load m pre).xacts <+: (load m (pre ++ [.rule r] ++ post)).xacts ∧
     (load m pre).errs <+: (load m (pre ++ [.rule r] ++ post)).errs ∧
+    (load m pre).warns <+: (load m (pre ++ [.rule r] ++ post)).warns ∧
     (load m (pre ++ [.rule r])).xacts = (load m pre).xacts ∧
-    (load m (pre ++ [.rule r])).errs = (load m pre).errs := by
+    (load m (pre ++ [.rule r])).errs = (load m pre).errs ∧
+    (load m (pre ++ [.rule r])).warns = (load m pre).warns := by
   have h := loadFrom_prefix m ([.rule r] ++ post) (load m pre)
   rw [List.append_assoc, load_append]
-  refine ⟨h.1, h.2, ?_, ?_⟩ <;> rw [load_snoc] <;> rfl
+  refine ⟨h.1, h.2.1, h.2.2, ?_, ?_, ?_⟩ <;> rw [load_snoc] <;> rfl
 
-/-- An extended transaction that no longer balances is an error.
-    (1) one rule: `extend_xact` raises "Transaction does not balance" exactly when the rule added a
-        posting that must balance and `verify()`'s running balance over ALL must-balance postings of
-        the extended transaction is not zero (at display precision); otherwise it returns the
-        extended transaction;
-    (2) journal: if the error arises for some rule seen so far, the transaction is not added to the
-        journal and an error naming the transaction and the rule is recorded. -/
-theorem C16.extended_unbalanced_error (m : Matcher) (env : PrecEnv) (r : Rule) (st : RState) (x : FXact)
-    (h : MemoOK m r.pred st) :
-    ((extendChecked m env r st x).2 = .error .unbalanced ↔
-        ((additions m env r x.payee x.posts).any FPost.mustBalance = true ∧
-         balanced env (x.posts ++ additions m env r x.payee x.posts) = false)) ∧
-    ((extendChecked m env r st x).2 ≠ .error .unbalanced →
-        (extendChecked m env r st x).2 = .ok (extendSpec m env r x)) := by
-  have hc := (extendChecked_spec m env r st x h).1
-  rw [hc]
-  by_cases hcond : (additions m env r x.payee x.posts).any FPost.mustBalance ∧
-      ¬ balanced env (extendSpec m env r x).posts
-  · rw [if_pos hcond]
-    refine ⟨⟨fun _ => ⟨hcond.1, by simpa [extendSpec] using hcond.2⟩, fun _ => rfl⟩, fun hne => absurd rfl hne⟩
-  · rw [if_neg hcond]
-    refine ⟨⟨fun hh => (by cases hh), fun hh => ?_⟩, fun _ => rfl⟩
-    exact absurd ⟨hh.1, by simpa [extendSpec] using hh.2⟩ hcond
+/-- An extended transaction that no longer balances is an error.  After the
+    loop, `extend_xact` calls `verify()` exactly when this rule appended a posting
+    that must balance; then
+    * a posting whose cost has the commodity of its own amount ⇒ "A posting's cost must be of a
+      different commodity than its amount";
+    * else a running balance (of `cost ? cost : amount` over ALL must-balance postings) that is not
+      zero at display precision ⇒ "Transaction does not balance";
+    * else, and whenever nothing that must balance was appended, the extension is accepted. -/
+theorem C16.extended_unbalanced_error (env : PrecEnv) (x : FXact) (lo : LoopOut) :
+    (AutoXact.finish env x (.ok lo) = .error .unbalanced ↔
+        (lo.added.any FPost.mustBalance = true ∧ sameCommCost (lo.origs ++ lo.added) = false ∧
+         balanced env (lo.origs ++ lo.added) = false)) ∧
+    (AutoXact.finish env x (.ok lo) = .error .sameCommCost ↔
+        (lo.added.any FPost.mustBalance = true ∧ sameCommCost (lo.origs ++ lo.added) = true)) ∧
+    ((lo.added.any FPost.mustBalance = false ∨
+        (sameCommCost (lo.origs ++ lo.added) = false ∧ balanced env (lo.origs ++ lo.added) = true)) →
+        AutoXact.finish env x (.ok lo) =
+          .ok { xact := { x with posts := lo.origs ++ lo.added }, added := lo.added, warns := lo.warns }) := by
+  unfold AutoXact.finish verify
+  simp only
+  by_cases hmb : lo.added.any FPost.mustBalance = true
+  · simp only [hmb, if_true]
+    by_cases hs : sameCommCost (lo.origs ++ lo.added) = true
+    · simp [hs]
+    · have hs' : sameCommCost (lo.origs ++ lo.added) = false := by simpa using hs
+      simp only [hs', Bool.false_eq_true, if_false]
+      by_cases hb : balanced env (lo.origs ++ lo.added) = true
+      · simp [hb]
+      · have hb' : balanced env (lo.origs ++ lo.added) = false := by simpa using hb
+        simp [hb']
+  · have hmb' : lo.added.any FPost.mustBalance = false := by simpa using hmb
+    simp [hmb']
 
-theorem C16.extended_unbalanced_error_journal (m : Matcher) (pre : List Item) (x : Xact) (fx : FXact)
+/-- Journal level: whenever applying the rules seen so far raises (an unbalanced
+    extension, a failing assert, an expression error, …), the transaction is not
+    added to the journal and an error naming the transaction and one of the rules
+    seen so far is recorded. -/
+theorem C16.extension_error_drops_transaction (m : Matcher) (pre : List Item) (x : Xact) (fx : FXact)
     (e : LErr) (rl : Nat)
     (hf : finalize ((load m pre).prec.bumpAll (x.posts.filterMap (·.amount))).get x = .ok fx)
-    (he : applyRulesSpec m ((load m pre).prec.bumpAll (x.posts.filterMap (·.amount))).get (rulesOf pre) fx
+    (he : applyRulesSpec m ((load m pre).prec.bumpAll (x.posts.filterMap (·.amount))).get (rulesOf pre) fx 0
             = .error (e, rl)) :
     (load m (pre ++ [.xact x])).xacts = (load m pre).xacts ∧
     (load m (pre ++ [.xact x])).errs = (load m pre).errs ++ [(x.line, rl, e)] ∧
-    e = .unbalanced ∧ ∃ r ∈ rulesOf pre, r.line = rl := by
+    ∃ r ∈ rulesOf pre, r.line = rl := by
   have := C16.load_applies_rules_so_far m pre x
   simp only [hf, he] at this
-  refine ⟨this.1, this.2, ?_⟩
+  refine ⟨this.1, this.2.1, ?_⟩
   clear this hf
   generalize (PrecTable.get _) = env at he
   generalize rulesOf pre = rs at he ⊢
-  induction rs generalizing fx with
+  generalize (0 : Nat) = w at he
+  induction rs generalizing fx w with
   | nil => simp [applyRulesSpec] at he
   | cons r rs ih =>
     simp only [applyRulesSpec] at he
     split at he
-    · cases he; exact ⟨rfl, r, List.mem_cons_self .., rfl⟩
-    · obtain ⟨h1, r', hr', h2⟩ := ih _ he
-      exact ⟨h1, r', List.mem_cons_of_mem _ hr', h2⟩
+    · obtain ⟨r', hr', h2⟩ := ih _ _ he
+      exact ⟨r', List.mem_cons_of_mem _ hr', h2⟩
+    · cases he; exact ⟨r, List.mem_cons_self .., rfl⟩
+
+/-- `assert` lines: the checks of a matched posting raise "Transaction assertion
+    failed" exactly when some `assert` line evaluates to false while every line
+    before it evaluates (and every earlier `assert` holds). -/
+theorem C16.assert_fails_iff_error (env : PrecEnv) (ip : FPost) (cs : List Check) :
+    runChecks env ip cs = .error .assertFailed ↔
+      ∃ pre c post, cs = pre ++ c :: post ∧ c.kind = .assert ∧ checkTruth env ip c = some false ∧
+        ∀ d ∈ pre, ∃ b, checkTruth env ip d = some b ∧ (d.kind = .assert → b = true) :=
+  runChecks_assert_iff env ip cs
+
+/-- `check` lines never reject: when every line is a `check` whose expression
+    evaluates, the result is never an error — it is the number of lines that are
+    false (one warning each). -/
+theorem C16.check_never_rejects (env : PrecEnv) (ip : FPost) (cs : List Check)
+    (h : ∀ c ∈ cs, c.kind = .check ∧ (checkTruth env ip c).isSome) :
+    runChecks env ip cs = .ok ((cs.filter (fun c => checkTruth env ip c = some false)).length) :=
+  runChecks_check_only env ip cs h
+
+/-- A successful extension means every matched posting passed the rule's
+    `assert` lines and every line's amount could be computed (predicates without
+    `any()`/`all()`): a failing `assert` on ANY matched posting makes the whole
+    extension an error. -/
+theorem C16.matched_postings_pass_asserts (m : Matcher) (env : PrecEnv) (r : Rule) (st : RState) (x : FXact) (e : Ext)
+    (h : MemoOK m r.pred st) (haf : r.pred.anyFree = true) (hok : (extend m env r st x).2 = .ok e) :
+    ∀ ip ∈ x.posts, r.matches m x.payee ip = true →
+      runChecks env (annotate r ip) r.checks ≠ .error .assertFailed ∧
+      ∃ gs, genLines env r x (annotate r ip) 0 r.lines = .ok gs ∧ gs.length = r.lines.length := by
+  rw [(extend_refines m env r st x h).1] at hok
+  obtain ⟨lo, hlo, _, _, _, _⟩ := finish_ok hok
+  obtain ⟨_, _, _, h4⟩ := specGo_closed m env r x haf lo hlo
+  intro ip hip hm
+  obtain ⟨⟨k, hk⟩, ⟨gs, hgs⟩⟩ := h4 ip hip hm
+  exact ⟨(by rw [hk]; intro hh; cases hh), gs, hgs, genLines_length _ _ _ hgs⟩
 
 /-! ### non-vacuity: concrete instances -/
 
@@ -251,40 +425,56 @@ namespace C16Examples
 def exEnv : PrecEnv := fun c => if c = "$" then 2 else 0
 def exAmt (q : Rat) (p : Nat) (c : String) : Amount := { q := q, prec := p, keep := false, comm := c }
 def exPost (a : String) (q : Rat) (line : Nat) : FPost :=
-  { account := a, kind := .real, amount := exAmt q 2 "$", line := line, generated := false, calculated := false }
-def exX : FXact := { payee := "payee 1", line := 4, posts := [exPost "Expenses:Food" 10 5, exPost "Assets:Cash" (-10) 6] }
-def exRule : Rule :=
-  { pred := .acct "food", line := 1,
-    lines := [{ account := "Budget:$account", kind := .virtual, amount := exAmt (1/10) 1 "", line := 2 },
-              { account := "Fixed", kind := .bvirtual, amount := exAmt 5 0 "AAA", line := 3 }] }
-
+  { account := a, kind := .real, state := 0, amount := exAmt q 2 "$", cost := none, note := none, line := line,
+    generated := false, calculated := false }
+def exX : FXact := { payee := "payee 1", line := 4, state := 1,
+                     posts := [exPost "Expenses:Food" 10 5, exPost "Assets:Cash" (-10) 6] }
 /-- a matcher the kernel can evaluate (string equality on literals); the theorems hold for every matcher -/
 def exM : Matcher := fun pat text => decide (pat = text)
-def exRuleE : Rule := { exRule with pred := .acct "Expenses:Food" }
+def exLine (acct : String) (k : PostKind) (a : Amount) (line : Nat) : RuleLine :=
+  { account := acct, kind := k, state := 2, amt := .lit a, cost := none, note := none, line := line }
+def exRule : Rule :=
+  { pred := .acct "Expenses:Food", line := 1, notes := [], checks := [],
+    lines := [exLine "Budget:$account" .virtual (exAmt (1/10) 1 "") 2, exLine "Fixed" .bvirtual (exAmt 5 0 "AAA") 3] }
 
 /-- what a posting shows apart from its account (computing the account needs `String.replace`, which the
     kernel does not unfold) -/
-def view (p : FPost) : Nat × PostKind × Amount × Bool := (p.line, p.kind, p.amount, p.generated)
+def view (p : FPost) : Nat × PostKind × ItemState × Amount × Bool := (p.line, p.kind, p.state, p.amount, p.generated)
 
-/-- a rule fires on the matching posting only; 0.1 × $10.00 = $1 exactly (precision 3), the fixed amount is as written -/
-example : (extend exM exEnv exRuleE RState.init exX).2.posts.map view =
-    exX.posts.map view ++ [(2, .virtual, exAmt 1 3 "$", true), (3, .bvirtual, exAmt 5 0 "AAA", true)] := by
+/-- a rule fires on the matching posting only; 0.1 × $10.00 = $1 exactly (precision 3), the fixed amount is as
+    written; the transaction is cleared, so are the generated postings (the rule lines say pending) -/
+example : (specGo exM exEnv exRule exX).toOption.map (fun o => o.added.map view) =
+    some [(2, .virtual, 1, exAmt 1 3 "$", true), (3, .bvirtual, 1, exAmt 5 0 "AAA", true)] := by
   decide +kernel
 
 /-- … and the [balanced virtual] fixed amount leaves a residual: error -/
-example : ((extendChecked exM exEnv exRuleE RState.init exX).2.toOption.map (·.line)) = none := by decide +kernel
+example : ((extend exM exEnv exRule RState.init exX).2.toOption.map (·.warns)) = none := by decide +kernel
 
 /-- with only the (virtual) line the extension is accepted -/
-example : ((extendChecked exM exEnv { exRuleE with lines := exRuleE.lines.take 1 } RState.init exX).2.toOption.map
-    (·.posts.length)) = some 3 := by decide +kernel
+example : ((extend exM exEnv { exRule with lines := exRule.lines.take 1 } RState.init exX).2.toOption.map
+    (·.xact.posts.length)) = some 3 := by decide +kernel
 
 /-- the memo is filled: both account names are recorded with the quick path's answers -/
-example : (extend exM exEnv exRuleE RState.init exX).1.memo =
+example : (extend exM exEnv exRule RState.init exX).1.memo =
     [("Assets:Cash", false), ("Expenses:Food", true)] := by decide +kernel
 
 /-- a predicate the quick path cannot evaluate switches the rule to the general evaluator for good -/
-example : (extend exM exEnv { exRuleE with pred := .and (.acct "Expenses:Food") (.amtGt 5) } RState.init exX).1.tryQuick
+example : (extend exM exEnv { exRule with pred := .and (.acct "Expenses:Food") (.amtGt 5) } RState.init exX).1.tryQuick
     = false := by decide +kernel
+
+/-- any() sees the postings generated earlier in the same pass: the second posting matches only because the
+    first one's generated posting is already in the transaction -/
+def exAnyRule : Rule :=
+  { exRule with pred := .or (.acct "Expenses:Food") (.any (.amtGt 50)),
+                lines := [exLine "Gen" .virtual (exAmt 10 0 "") 2] }
+example : (specGo exM exEnv exAnyRule exX).toOption.map (fun o => o.added.map (·.amount.q)) = some [100, -100] := by
+  decide +kernel
+
+/-- a rule-level note reaches the matched posting and the generated one; a note after the line only the latter -/
+def exNoteRule : Rule :=
+  { exRule with lines := exRule.lines.take 1, notes := [{ text := " lead", applyTo := none }, { text := " tail", applyTo := some 0 }] }
+example : (specGo exM exEnv exNoteRule exX).toOption.map (fun o => (o.origs.map (·.note), o.added.map (·.note))) =
+    some ([some " lead", none], [some " lead\n tail"]) := by decide +kernel
 
 /-- journal level: the rule placed after the first transaction extends only the second -/
 def exXact (line : Nat) : Xact :=
@@ -293,12 +483,12 @@ def exXact (line : Nat) : Xact :=
                 assert := none, note := "", line := line + 1 },
               { account := "Assets:Cash", kind := .real, state := 0, amount := none, cost := none, assert := none,
                 note := "", line := line + 2 }] }
-def exRule2 : Rule := { exRuleE with lines := exRuleE.lines.take 1, line := 5 }
+def exRule2 : Rule := { exRule with lines := exRule.lines.take 1, line := 5 }
 
 example : ((load exM [.xact (exXact 1), .rule exRule2, .xact (exXact 8)]).xacts.map (·.posts.length)) = [2, 3] := by
   decide +kernel
 
-example : (load exM [.xact (exXact 1), .rule exRuleE, .xact (exXact 8)]).errs = [(8, 1, .unbalanced)] := by
+example : (load exM [.xact (exXact 1), .rule exRule, .xact (exXact 8)]).errs = [(8, 1, .unbalanced)] := by
   decide +kernel
 
 end C16Examples
